@@ -25,6 +25,10 @@ pub enum Fault {
     /// every PUT of ONE object fails, for good (partition `part` of every database with s3_patition; the keys object (0) or
     /// the values object (else) with s3), all other objects are stored normally
     PutOfOneObjectFailsAlways { part: u8 },
+    /// no fault: while the n-th PUT of the case is in flight (the uploader waits for its answer) a client that has the
+    /// database of that object selected rewrites every plain key of it. Whether or not the write is part of the running
+    /// snapshot, the NEXT snapshot and restart must bring it back
+    WriteDuringPut { n: u64 },
 }
 
 #[derive(Clone, Debug, Serialize, Deserialize)]
@@ -64,6 +68,7 @@ pub fn case_strategy() -> impl Strategy<Value = Case> {
         1 => (1..8u64).prop_map(|n| Fault::GetFailsOnce { n }),
         1 => (1..8u64).prop_map(|n| Fault::GetFailsOnceNotRetriable { n }),
         2 => (0..10u8).prop_map(|part| Fault::PutOfOneObjectFailsAlways { part }),
+        3 => (1..8u64).prop_map(|n| Fault::WriteDuringPut { n }),
     ];
     (c06::case_strategy(16), fault, prop_oneof![2 => Just(0usize), 1 => 1..4usize]).prop_map(|(base, fault, list_page)| Case { base, fault, list_page })
 }
@@ -72,7 +77,7 @@ pub fn run_case(ctx: &Ctx, case: &Case) -> Outcome {
     let stub = setup();
     stub.reset();
     *stub.faults.lock().unwrap() = match case.fault {
-        Fault::None => Faults::default(),
+        Fault::None | Fault::WriteDuringPut { .. } => Faults::default(),
         Fault::PutFailsOnce { n } => Faults { put_fail: Some((n, 1, 500)), get_fail: None, put_fail_suffix: None, ..Faults::default() },
         Fault::PutFailsTimes { n, times } => Faults { put_fail: Some((n, times, 500)), get_fail: None, put_fail_suffix: None, ..Faults::default() },
         Fault::PutFailsOnceNotRetriable { n } => Faults { put_fail: Some((n, 1, 409)), get_fail: None, put_fail_suffix: None, ..Faults::default() },
@@ -85,6 +90,41 @@ pub fn run_case(ctx: &Ctx, case: &Case) -> Outcome {
             Faults { put_fail: None, get_fail: None, put_fail_suffix: Some(suffix), ..Faults::default() }
         }
     };
+    // the write-during-PUT event: armed only while a snapshot step runs
+    let during: std::sync::Arc<std::sync::Mutex<Option<(std::sync::Arc<nundb::bo::Databases>, String)>>> = std::sync::Arc::new(std::sync::Mutex::new(None));
+    let written: std::sync::Arc<std::sync::Mutex<Vec<(String, String)>>> = std::sync::Arc::new(std::sync::Mutex::new(vec![]));
+    if let Fault::WriteDuringPut { n } = case.fault {
+        let (d2, w2) = (during.clone(), written.clone());
+        *crate::s3stub::ON_PUT.lock().unwrap() = Some(Box::new(move |path: &str, k: u64| {
+            if k != n {
+                return;
+            }
+            let armed = d2.lock().unwrap().clone();
+            if let Some((dbs, dir)) = armed {
+                crate::node::use_dir(&dir);
+                // .../<database>/<object>
+                let comps: Vec<&str> = path.trim_matches('/').split('/').collect();
+                if comps.len() < 2 {
+                    return;
+                }
+                let db = comps[comps.len() - 2].to_string();
+                let keys: Vec<String> = match dbs.map.read().unwrap().get(&db) {
+                    Some(d) => d.map.read().unwrap().iter().filter(|(k, v)| !k.starts_with('$') && !(v.state == nundb::bo::ValueStatus::Deleted && v.value == "<Empty>")).map(|(k, _)| k.clone()).collect(),
+                    None => return,
+                };
+                // a session that selected the database before the snapshot began
+                let (mut client, _rx) = nundb::bo::Client::new_empty_and_receiver();
+                client.auth.store(true, Ordering::SeqCst);
+                *client.selected_db.name.write().unwrap() = Some(db.clone());
+                for key in keys {
+                    let _ = nundb::process_request::process_request(&format!("set {} written-during-the-put", key), &dbs, &mut client);
+                    w2.lock().unwrap().push((db.clone(), key));
+                }
+            }
+        }));
+    } else {
+        *crate::s3stub::ON_PUT.lock().unwrap() = None;
+    }
     stub.faults.lock().unwrap().list_page = case.list_page;
     let strat = strategy_name();
     let dir = ctx.fresh_dir();
@@ -96,10 +136,15 @@ pub fn run_case(ctx: &Ctx, case: &Case) -> Outcome {
     let mut reported = false;
     let mut incremental_after_snapshot_with_untouched_and_removed = false;
     let mut snapshots_done = 0;
+    let mut wrote_during_a_put = false;
     'ops: for (i, op) in ops.iter().enumerate() {
         let failed_puts_before = stub.failed_puts.load(Ordering::SeqCst);
         let failed_gets_before = stub.failed_gets.load(Ordering::SeqCst);
         let errors_before = crate::errlog::errors();
+        *during.lock().unwrap() = match (op, w.node.as_ref()) {
+            (Op::Tick, Some(n)) => Some((n.dbs.clone(), w.dir.clone())),
+            _ => None,
+        };
         let results: Vec<(String, String, String)> = match op {
             Op::RestartClean | Op::RestartKill => {
                 let stub2 = stub.clone();
@@ -125,6 +170,21 @@ pub fn run_case(ctx: &Ctx, case: &Case) -> Outcome {
                 }
             }
         };
+        *during.lock().unwrap() = None;
+        {
+            let ws: Vec<(String, String)> = std::mem::take(&mut *written.lock().unwrap());
+            if !ws.is_empty() {
+                wrote_during_a_put = true;
+            }
+            if let Some(n) = w.node.as_ref() {
+                for (db, key) in ws {
+                    let cur = n.dbs.map.read().unwrap().get(&db).and_then(|d| d.get_value(key.clone())).map(|v| (v.value, v.version));
+                    if let Some(cur) = cur {
+                        w.alt.insert((db, key), cur);
+                    }
+                }
+            }
+        }
         let put_failed_now = stub.failed_puts.load(Ordering::SeqCst) > failed_puts_before;
         let get_failed_now = stub.failed_gets.load(Ordering::SeqCst) > failed_gets_before;
         let logged = crate::errlog::errors() > errors_before;
@@ -234,7 +294,12 @@ pub fn run_case(ctx: &Ctx, case: &Case) -> Outcome {
         Fault::GetFailsOnce { .. } => "get-fails-once",
         Fault::GetFailsOnceNotRetriable { .. } => "get-fails-once-with-403",
         Fault::PutOfOneObjectFailsAlways { .. } => "one-object-unwritable",
+        Fault::WriteDuringPut { .. } => "client-write-while-a-put-is-in-flight-planned",
     });
+    if wrote_during_a_put {
+        out.classes.push("client-write-while-a-put-was-in-flight");
+    }
+    *crate::s3stub::ON_PUT.lock().unwrap() = None;
     if reported {
         out.classes.push("persistent-fault-was-reported");
     }
@@ -250,6 +315,39 @@ pub fn run(ctx: &Ctx, rep: &mut Report) {
     if strategy_name() == "disk" {
         rep.notes.push("worker without an S3 strategy: nothing to do".to_string());
         return;
+    }
+    // a client write while the n-th PUT is in flight, then a further snapshot and a restart: every n, a database with
+    // four keys (and a second database so that the PUT can be another database's)
+    {
+        let mut cases = vec![];
+        for n in 1..=(if ctx.quick() { 8u64 } else { 14 }) {
+            for two_dbs in [false, true] {
+                for reclaim in [false, true] {
+                    let mut ops = vec![];
+                    for k in c06::KEYS.iter() {
+                        ops.push(Op::Set { db: 0, k: k.to_string(), v: "x".into() });
+                    }
+                    if two_dbs {
+                        ops.push(Op::Set { db: 1, k: "a".into(), v: "7".into() });
+                        ops.push(Op::Snapshot { db: 1, reclaim: false });
+                    }
+                    ops.push(Op::Snapshot { db: 0, reclaim });
+                    ops.push(Op::Tick);
+                    ops.push(Op::Snapshot { db: 0, reclaim: false });
+                    if two_dbs {
+                        ops.push(Op::Snapshot { db: 1, reclaim: false });
+                    }
+                    ops.push(Op::Tick);
+                    ops.push(Op::RestartKill);
+                    let strategies = if two_dbs { vec!["none".to_string(), "newer".to_string()] } else { vec!["none".to_string()] };
+                    cases.push(Case { base: c06::Case { strategies, ops }, fault: Fault::WriteDuringPut { n }, list_page: 0 });
+                }
+            }
+        }
+        crate::report::enumerate(ctx, rep, &format!("write-while-a-put-is-in-flight-{}-p{}", strategy_name(), std::env::var("NUN_S3_NUMBER_OF_PARTITIONS").unwrap_or_default()), cases.into_iter(), |c| run_case(ctx, c));
+        if !rep.failures.is_empty() {
+            return;
+        }
     }
     let n = ctx.amount(1200, 30_000);
     explore_with(ctx, rep, &format!("histories-{}-p{}", strategy_name(), std::env::var("NUN_S3_NUMBER_OF_PARTITIONS").unwrap_or_default()), n, 150, case_strategy(), |c| run_case(ctx, c));
